@@ -964,6 +964,9 @@ func render(c Case, f File) fileTruth {
 		w.ln(1, "// "+strings.Repeat("Thread.sleep(1); ", 300))
 	case 2:
 		w.ln(1, "private String blob = \""+strings.Repeat("System.out.println(1); ", 3100)+"\";")
+	case 3:
+		// eighth seed batch: a payload constant of more than a mebibyte on one line
+		w.ln(1, "private String payload = \""+strings.Repeat("Thread.sleep(1); ", 66000)+"\";")
 	}
 	if f.Constructor {
 		w.ln(1, "public "+f.Name+"() throws Exception {")
@@ -2557,6 +2560,9 @@ func genFile(t *rapid.T, c *Case, role string, idx int, used map[string]bool) Fi
 	}
 	if rare(t, "longLine", 14) {
 		f.LongLine = rapid.IntRange(1, 2).Draw(t, "longLineKind")
+		if rare(t, "mebibyteLine", 5) {
+			f.LongLine = 3
+		}
 	}
 
 	if role == "prod" {
